@@ -135,6 +135,10 @@ Definition go_rd_u16 := go_rd_be 2.
 Definition go_rd_u32 := go_rd_be 4.
 Definition go_rd_u64 := go_rd_be 8.
 
+(* sync/atomic on an int32 variable (the state is its value): CompareAndSwapInt32(&x, old, new), AddInt32(&x, d) *)
+Definition go_atomic_cas32 (old new : Z) (x : Z) : Z * bool := if x =? old then (new, true) else (x, false).
+Definition go_atomic_add32 (d : Z) (x : Z) : Z * Z := let v := wrapS 32 (x + d) in (v, v).
+
 (* `for { body }` of a unit with fuel: the body falls through (next iteration: the unit again, with the fuel left),
    breaks (Return (inl state)) or returns (Return (inr results)) *)
 Definition go_iter {S B S' R} (c : ctl S (B + R)) (kbreak : B -> ctl S' R) (knext : S -> ctl S' R) : ctl S' R :=
